@@ -366,12 +366,18 @@ impl<'g> Ref<'g> {
     }
 
     fn star_rule(&mut self, name: &str, cur: &mut Ok_, in_pred: bool) -> Result<(), Stop> {
+        let mut stalled = 0u32;
         loop {
             let stack0 = cur.stack.clone();
             match self.call(name, cur.pos, &stack0, Atom::Non, in_pred) {
                 Ok(mut o) => {
                     if o.pos == cur.pos && o.stack == cur.stack {
                         return Err(Stop::Diverges(format!("{name} matched without progress")));
+                    }
+                    // iterating on the stack alone, without consuming input: give up early
+                    stalled = if o.pos == cur.pos { stalled + 1 } else { 0 };
+                    if stalled > 64 {
+                        return Err(Stop::Budget);
                     }
                     cur.pos = o.pos;
                     cur.stack = o.stack;
@@ -443,6 +449,7 @@ impl<'g> Ref<'g> {
     /// `(skip e)*` continuing from `cur`.
     fn more(&mut self, e: &Expr, mut cur: Ok_, atom: Atom, in_pred: bool) -> R {
         let mut iters = 0u32;
+        let mut stalled = 0u32;
         loop {
             self.tick()?;
             let st = cur.stack.clone();
@@ -451,6 +458,10 @@ impl<'g> Ref<'g> {
                 Ok(mut o) => {
                     if o.pos == cur.pos && o.stack == cur.stack {
                         return Err(Stop::Diverges("repetition iterated without progress".into()));
+                    }
+                    stalled = if o.pos == cur.pos { stalled + 1 } else { 0 };
+                    if stalled > 64 {
+                        return Err(Stop::Budget);
                     }
                     cur.pos = o.pos;
                     cur.stack = o.stack;
